@@ -109,6 +109,29 @@ theorem get_system_R_same_X [CommRing K] (χ : Nat → Nat → Vec3 → K) (merg
     have e2 : 2 * ((b - 1) / 2) + 1 = b := by omega
     simp [ha, hb, e1, e2]
 
+/-- T3b.  Non-magnetic case `nspin = 1` (`system_down = None`): the code uses the spin-up system for BOTH diagonal
+    blocks, without conjugation.  Then, for every phase function χ(R), the k-sum of the derived `Ham` is
+    `Ham_SOC(k) + double_spin(H↑(k))`: without SOC every spin-up band appears exactly twice (T1). -/
+theorem get_system_R_nspin1 [CommRing K] (χ : Vec3 → K) (merged lsoc lup : List Vec3)
+    (h0 : ∀ R ∈ lsoc, R ∈ merged) (h1 : ∀ R ∈ lup, R ∈ merged)
+    (Hsoc Hup : Nat → Nat → Nat → K) (a b : Nat) :
+    kSum χ merged (fun r => sysRHam merged lsoc lup lup Hsoc Hup Hup r a b)
+      = kSum χ lsoc (fun j => Hsoc j a b) + doubleSpin (fun m n => kSum χ lup (fun j => Hup j m n)) a b :=
+  get_system_R_same_H (fun _ _ => χ) merged lsoc lup lup h0 h1 h1 Hsoc Hup Hup a b
+
+/-- T3c.  Filling the spin-down block with the CONJUGATE of the spin-up block instead (the "time-reversed partner"
+    variant) is wrong: already for one orbital, one R-vector, hopping `i` and phase `χ(R) = i` the down-down entry of the
+    k-sum is `+1`, while `double_spin(H↑(k))` has `−1` there (the down block would be H↑(−k)*, with bands E↑(−k)). -/
+theorem conjugated_down_block_is_wrong :
+    ∃ (χ : Vec3 → ℂ) (merged lsoc lup : List Vec3) (Hsoc Hup : Nat → Nat → Nat → ℂ),
+      (∀ R ∈ lsoc, R ∈ merged) ∧ (∀ R ∈ lup, R ∈ merged) ∧
+      kSum χ merged (fun r => sysRHamConjDown (starRingEnd ℂ) merged lsoc lup Hsoc Hup r 1 1)
+        ≠ kSum χ lsoc (fun j => Hsoc j 1 1) + doubleSpin (fun m n => kSum χ lup (fun j => Hup j m n)) 1 1 := by
+  refine ⟨fun _ => Complex.I, [(1, 0, 0)], [], [(1, 0, 0)], fun _ _ _ => 0, fun _ _ _ => Complex.I, by simp, by simp, ?_⟩
+  have e : List.idxOf ((1, 0, 0) : Vec3) [(1, 0, 0)] = 0 := by decide
+  simp [kSum, sumRange, sysRHamConjDown, scatterAdd, rmap, embedStrided, doubleSpin, assignStrided, e]
+  norm_num [Complex.ext_iff]
+
 /-- non-vacuity of T3: three different R lists, the model's own merged list -/
 example : let l0 : List Vec3 := [(0,0,0), (1,0,0), (-1,0,0)]
           let l1 : List Vec3 := [(0,0,0), (0,2,1)]
